@@ -342,13 +342,26 @@ def tunnelHandlersTouchSocketOptions : Bool := false
 
 /-! ## The two-direction tunnel as a state machine -/
 
-/-- How the proxy reacts when one copy direction finishes. `firstEnds`: the code (`err = <-errc`, return,
-deferred `Close` of both connections). `halfClose`: the repair that was evaluated and not made (D14):
-propagate the EOF with `CloseWrite` and keep the other direction until it ends too. -/
+/-- How the proxy reacts when one copy direction finishes.
+* `firstEnds`: the code before the D14 repair (`err = <-errc`, return, deferred `Close` of both connections:
+  whichever direction ends first ends the tunnel).
+* `halfClose`: the symmetric textbook repair that was evaluated and rejected — propagate every EOF with
+  `CloseWrite` and wait for both directions; after a client EOF nothing ties the handler to the inbound
+  connection any more, so `Server.Shutdown` cannot end it (`naive_half_close_survives_shutdown`).
+* `clientHalf`: the repair that was made. The client→upstream goroutine, on a clean EOF, calls
+  `CloseWrite` on the upstream connection and then *waits for the client connection to be closed*
+  (`<-conn.Done()`) before it reports on `errc`; the upstream→client direction keeps running and its end (or
+  the server closing the client connection) ends the tunnel. The websocket handler does the same without the
+  wait (its goroutine simply does not report). -/
 inductive Mode where
   | firstEnds
   | halfClose
+  | clientHalf
 deriving Repr, BEq, DecidableEq
+
+/-- The mode of the code in `/repo`, pinned to the source by `C09Facts.tunnel_teardown_mode` (the events of the
+client→upstream goroutine). -/
+def codeMode : Mode := .firstEnds
 
 structure Tun where
   pre : Bytes := []            -- written to the upstream before the copy phase (PROXY line, hello)
@@ -396,20 +409,39 @@ def step (m : Mode) (s : Tun) : Ev → Tun
     else match m with
       | .firstEnds => { s with c2uDone := true }
       | .halfClose => { s with c2uDone := true, upEOF := true }       -- CloseWrite(out)
+      | .clientHalf => { s with c2uDone := true, upEOF := true }      -- CloseWrite(out), then wait for Done
   | .u2cEOF =>
     if s.torn ∨ s.u2cDone ∨ !s.uFin ∨ s.u2c < s.uSent.length then s
     else match m with
       | .firstEnds => { s with u2cDone := true }
       | .halfClose => { s with u2cDone := true, clEOF := true }
+      | .clientHalf => { s with u2cDone := true }
   | .finish =>
     let ready := match m with
       | .firstEnds => s.c2uDone ∨ s.u2cDone
       | .halfClose => s.c2uDone ∧ s.u2cDone
+      | .clientHalf => s.u2cDone       -- the client→upstream direction reports only once the connection is closed
     if s.torn ∨ !ready then s else { s with torn := true, upEOF := true, clEOF := true }
 
 def run (m : Mode) (s : Tun) (h : List Ev) : Tun := h.foldl (step m) s
 
 def Tun.init (pre : Bytes) : Tun := { pre := pre, upSaw := pre }
+
+/-- `Server.Shutdown` / `Server.Close` (`closeConns`): the server closes the *inbound* connection of the
+tunnel. What that does to the handler depends on what still ties it to that connection:
+* `firstEnds`: the client→upstream copy is blocked in `Read` on it (or has already reported): it fails, reports,
+  `ServeTCP` returns and closes the upstream connection too.
+* `clientHalf`: the same while the client→upstream copy is running; after a client EOF its goroutine is parked in
+  `<-conn.Done()`, which the close releases: it reports, `ServeTCP` returns.
+* `halfClose` (the rejected repair): after a client EOF that goroutine is gone; the handler waits for the
+  upstream→client copy, which is blocked in `Read` on the *upstream* connection — an idle upstream keeps handler
+  and outbound socket alive. -/
+def serverClose (m : Mode) (s : Tun) : Tun :=
+  match m with
+  | .firstEnds | .clientHalf => { s with torn := true, upEOF := true, clEOF := true }
+  | .halfClose =>
+    if s.c2uDone ∧ !s.u2cDone ∧ !s.torn then { s with clEOF := true }
+    else { s with torn := true, upEOF := true, clEOF := true }
 
 /-- The proxy's own steps. -/
 def proxyEvs : List Ev := [.fwdC2U, .fwdU2C, .c2uEOF, .u2cEOF, .finish]
@@ -440,7 +472,8 @@ def closeHistory (order : CloseOrder) (reply : Bytes) (m : Mode) : List Ev :=
   | .client, _ => [.clientFin, .c2uEOF, .finish, .upFin, .u2cEOF, .finish]
   | .upstream, _ => [.upFin, .u2cEOF, .finish, .clientFin, .c2uEOF, .finish]
   | .halfClose, _ =>
-    -- the upstream replies only after it has seen EOF; in mode firstEnds that is after `finish`
+    -- the upstream replies only after it has seen EOF; in mode firstEnds that is after `finish`, in the other
+    -- modes the first `finish` is not enabled
     [.clientFin, .c2uEOF, .finish, .upSend reply, .fwdU2C, .upFin, .u2cEOF, .finish]
 
 def scenario (m : Mode) (pre cstream ustream reply : Bytes) (order : CloseOrder) : Tun :=
